@@ -25,6 +25,7 @@ static CALLS: AtomicU64 = AtomicU64::new(0);
 static LARGEST: AtomicU64 = AtomicU64::new(0);
 static BIG_THRESH: AtomicU64 = AtomicU64::new(u64::MAX);
 static BIG_CALLS: AtomicU64 = AtomicU64::new(0);
+static REALLOCS: AtomicU64 = AtomicU64::new(0);
 
 #[inline]
 fn note(size: usize) {
@@ -53,8 +54,12 @@ unsafe impl GlobalAlloc for Counting {
         System.dealloc(p, l)
     }
     unsafe fn realloc(&self, p: *mut u8, l: Layout, new_size: usize) -> *mut u8 {
-        // the new size is counted in full: growth by doubling is amortised O(total) anyway
+        // the new size is counted in full, for growing AND shrinking reallocs (growth by doubling is
+        // amortised O(total) anyway), and the call counts as an allocation call
         note(new_size);
+        if ON.load(Relaxed) {
+            REALLOCS.fetch_add(1, Relaxed);
+        }
         System.realloc(p, l, new_size)
     }
 }
@@ -68,6 +73,7 @@ static GLOBAL: Counting = Counting;
 //     index list, boxed l-values) .. 661 bytes (dict_union: a one-entry dict per iteration plus the
 //     rehash growth of the target) / 666 bytes (dk_multi: two lists growing under two dict keys).  BETA = 2000 leaves a factor 3 over the most expensive honest family
 //     and 4.8 over the typical one;
+//     push/pop pairs (pp_*, k = 2n statements) cost 197 .. 565 bytes per unit of (n + k);
 //   * ALPHA covers the constant part (first growth steps, the range object);
 //   * GAMMA = 2: a make_mut copy allocates exactly len * ELEM for Vec payloads (measured ratio
 //     aliased-unaliased / (copied * ELEM) = 1.000) and at most 16/7 * len entries for a hash map (folded
@@ -77,8 +83,19 @@ static GLOBAL: Counting = Counting;
 const ALPHA: u64 = 64 * 1024;
 const BETA: u64 = 2000;
 const GAMMA: u64 = 2;
+/// families whose every statement calls a user-defined closure (uc_*): the call itself (argument vector, a scope
+/// for the parameters, the body's statements) costs 1.2-2.2 kB per call on the unchanged tree, 590 .. 1097 bytes per
+/// unit of (n + k); BETA_CALL leaves the same factor ~3.  One hidden copy per call is n * ELEM = 96 kB at n = 2000.
+const BETA_CALL: u64 = 3500;
+fn beta_for(family: &str) -> u64 {
+    if family.starts_with("uc_") {
+        BETA_CALL
+    } else {
+        BETA
+    }
+}
 /// model requests are sent for sizes up to this n (the Lean list model is O(n) per statement)
-const MODEL_MAX_N: u64 = 16_000;
+const MODEL_MAX_N: u64 = 16_384;
 const MODEL_MAX_N_CONTROL: u64 = 2_000;
 
 #[derive(Clone, Copy)]
@@ -160,6 +177,8 @@ const LIST_SETUP: &str = "qx := [0] ** qn";
 const DICT_SETUP: &str = "qx := {}; for (i <- 0 til qn) qx[i] = i";
 const ROWS_SETUP: &str = "qx := []; for (i <- 0 til qr) qx append= ([0] ** qr)";
 const STRUCT_SETUP: &str = "struct Foo(fa, fb); qx := Foo([0] ** qn, 7)";
+const PP_BUILT: &str = "qx := []; for (i <- 0 til qn) qx append= i";
+const PP_HALF: &str = "qx := []; for (i <- 0 til 2 * qn) qx append= i; for (i <- 0 til qn) pop qx";
 const DK_SETUP: &str = "qx := {\"a\": [0] ** qn}";
 const DLD_SETUP: &str = "qx := {\"a\": [{\"b\": [0] ** qn}]}";
 const SD_SETUP: &str = "struct Foo(fa, fb); qx := Foo({\"a\": [0] ** qn}, 7)";
@@ -329,14 +348,147 @@ fn families() -> Vec<Family> {
             check_alias: "[len(qy[\"a\"]), sum(qy[\"a\"])]", expect_alias: |_| "[0,0]".into(),
             // n = the size the list grows to (it starts as the default value): keeps x = n + k comparable
             nelem: n_of, k: n_of, copied: |_| (0, 0), in_model: false },
+
+        // ------------------------------------------------------------------ user-defined closures as the operator
+        // (the closure's argument vector must be MOVED into the parameters: a parameter is then the only holder, and a
+        // body that mutates its parameter in place -- `a append= b; a`, `a[b] = 1; a` -- copies nothing.  A body that
+        // is a plain expression on the parameter, `\\a, b -> a append b`, reads the variable `a` while it stays
+        // alive and therefore copies on every call: quadratic by construction, measured as information only)
+        Family { name: "uc_push_body", kind: Kind::List, setup: "push2 := \\a, b -> (a append= b; a); qx := [0] ** qn",
+            work: "for (i <- 0 til qn) qx push2= i",
+            check: ls, expect: |s| format!("[{},{}]", 2 * s.n, tri(s.n)), check_alias: la, expect_alias: orig_list,
+            nelem: n_of, k: n_of, copied: flat, in_model: false },
+        Family { name: "uc_concat", kind: Kind::List, setup: "cat2 := \\a, b -> (a ++= [b]; a); qx := [0] ** qn",
+            work: "for (i <- 0 til qn) qx cat2= i",
+            check: ls, expect: |s| format!("[{},{}]", 2 * s.n, tri(s.n)), check_alias: la, expect_alias: orig_list,
+            nelem: n_of, k: n_of, copied: flat, in_model: false },
+        Family { name: "uc_pop", kind: Kind::List, setup: "popa := \\a -> (pop a; a); qx := [0] ** qn",
+            work: "for (i <- 0 til qn) qx .= popa",
+            check: ls, expect: |_| "[0,0]".into(), check_alias: la, expect_alias: orig_list,
+            nelem: n_of, k: n_of, copied: flat, in_model: false },
+        Family { name: "uc_addkey", kind: Kind::Dict,
+            setup: "addk := \\d, k -> (d |.= k; d); qx := {}; for (i <- 0 til qn) qx[i] = i",
+            work: "for (i <- qn til 2 * qn) qx addk= i",
+            check: dk, expect: |s| format!("[{},{}]", 2 * s.n, tri(2 * s.n)), check_alias: dka, expect_alias: orig_dict,
+            nelem: n_of, k: n_of, copied: flat, in_model: false },
+        Family { name: "uc_rows", kind: Kind::List,
+            setup: "push2 := \\a, b -> (a append= b; a); qx := []; for (i <- 0 til qr) qx append= ([0] ** qr)",
+            work: "for (i <- 0 til qr) for (j <- 0 til qr) qx[i] push2= j",
+            check: rows, expect: |s| format!("[{},{},{}]", s.r, 2 * s.r * s.r, s.r * tri(s.r)), check_alias: rowsa, expect_alias: orig_rows,
+            nelem: rr_plus_r, k: rr, copied: |s| (0, s.r * s.r + s.r), in_model: false },
+        Family { name: "uc_bump", kind: Kind::List, setup: "bump := \\a -> (a[0] += 1; a); qx := [0] ** qn",
+            work: "for (i <- 0 til qn) qx .= bump",
+            check: ls, expect: |s| format!("[{},{}]", s.n, s.n), check_alias: la, expect_alias: orig_list,
+            nelem: n_of, k: n_of, copied: flat, in_model: false },
+        Family { name: "uc_bump2", kind: Kind::List, setup: "bump2 := \\a, b -> (a[b] += 1; a); qx := [0] ** qn",
+            work: "for (i <- 0 til qn) qx bump2= i",
+            check: ls, expect: |s| format!("[{},{}]", s.n, s.n), check_alias: la, expect_alias: orig_list,
+            nelem: n_of, k: n_of, copied: flat, in_model: false },
+        Family { name: "uc_setidx", kind: Kind::List, setup: "seti := \\a, b -> (a[b] = 1; a); qx := [0] ** qn",
+            work: "for (i <- 0 til qn) qx seti= i",
+            check: ls, expect: |s| format!("[{},{}]", s.n, s.n), check_alias: la, expect_alias: orig_list,
+            nelem: n_of, k: n_of, copied: flat, in_model: false },
+        Family { name: "uc_note", kind: Kind::Dict,
+            setup: "note := \\d, k -> (d[k] = 1; d); qx := {}; for (i <- 0 til qn) qx[i] = i",
+            work: "for (i <- 0 til qn) qx note= i",
+            check: dv, expect: |s| format!("[{},{}]", s.n, s.n), check_alias: dva, expect_alias: orig_dict,
+            nelem: n_of, k: n_of, copied: flat, in_model: false },
+        Family { name: "uc_note_new", kind: Kind::Dict,
+            setup: "note := \\d, k -> (d[k] = 1; d); qx := {}; for (i <- 0 til qn) qx[i] = i",
+            work: "for (i <- qn til 2 * qn) qx note= i",
+            check: dv, expect: |s| format!("[{},{}]", 2 * s.n, tri(s.n) + s.n), check_alias: dva, expect_alias: orig_dict,
+            nelem: n_of, k: n_of, copied: flat, in_model: false },
+        Family { name: "uc_dict_list", kind: Kind::List, setup: "push2 := \\a, b -> (a append= b; a); qx := {\"a\": [0] ** qn}",
+            work: "for (i <- 0 til qn) qx[\"a\"] push2= i",
+            check: "[len(qx[\"a\"]), sum(qx[\"a\"])]", expect: |s| format!("[{},{}]", 2 * s.n, tri(s.n)),
+            check_alias: "[len(qy[\"a\"]), sum(qy[\"a\"])]", expect_alias: orig_list,
+            nelem: n_of, k: n_of, copied: flat, in_model: false },
+        Family { name: "uc_struct_push", kind: Kind::List,
+            setup: "push2 := \\a, b -> (a append= b; a); struct Foo(fa, fb); qx := Foo([0] ** qn, 7)",
+            work: "for (i <- 0 til qn) qx[fa] push2= i",
+            check: st, expect: |s| format!("[{},{},7]", 2 * s.n, tri(s.n)), check_alias: sta, expect_alias: orig_struct,
+            nelem: n_of, k: n_of, copied: flat, in_model: false },
+        Family { name: "uc_struct_seti", kind: Kind::List,
+            setup: "seti := \\a, b -> (a[b] = 1; a); struct Foo(fa, fb); qx := Foo([0] ** qn, 7)",
+            work: "for (i <- 0 til qn) qx[fa] seti= i",
+            check: st, expect: |s| format!("[{},{},7]", s.n, s.n), check_alias: sta, expect_alias: orig_struct,
+            nelem: n_of, k: n_of, copied: flat, in_model: false },
+        Family { name: "uc_vec", kind: Kind::Vector, setup: "push2 := \\a, b -> (a append= b; a); qx := vector([0] ** qn)",
+            work: "for (i <- 0 til qn) qx push2= 1",
+            check: ls, expect: |s| format!("[{},{}]", 2 * s.n, s.n), check_alias: la, expect_alias: orig_list,
+            nelem: n_of, k: n_of, copied: flat, in_model: false },
+        Family { name: "uc_bytes", kind: Kind::Bytes, setup: "push2 := \\a, b -> (a append= b; a); qx := bytes([0] ** qn)",
+            work: "for (i <- 0 til qn) qx push2= 1",
+            check: ls, expect: |s| format!("[{},{}]", 2 * s.n, s.n), check_alias: la, expect_alias: orig_list,
+            nelem: n_of, k: n_of, copied: flat, in_model: false },
+        // ------------------------------------------------------------------ push/pop pairs at a capacity boundary
+        // n = 2^m exactly (these families ignore the tier's n0: quick 2048, thorough 16384); k = n pairs = 2n
+        // statements; at most one amortised growth realloc per workload, never one per pair
+        Family { name: "pp_pow2_built", kind: Kind::List, setup: PP_BUILT, work: "for (i <- 0 til qn) (qx append= i; pop qx)",
+            check: ls, expect: |s| format!("[{},{}]", s.n, tri(s.n)), check_alias: la, expect_alias: |s| format!("[{},{}]", s.n, tri(s.n)),
+            nelem: n_of, k: |s| 2 * s.n, copied: flat, in_model: true },
+        Family { name: "pp_pow2_popfirst", kind: Kind::List, setup: PP_BUILT, work: "for (i <- 0 til qn) (pop qx; qx append= i)",
+            check: "[len(qx), sum(qx[:-1])]", expect: |s| format!("[{},{}]", s.n, tri(s.n - 1)),
+            check_alias: la, expect_alias: |s| format!("[{},{}]", s.n, tri(s.n)),
+            nelem: n_of, k: |s| 2 * s.n, copied: flat, in_model: true },
+        Family { name: "pp_cow", kind: Kind::List, setup: "qs := [0] ** qn; qz := qs; qx := qs; qx[0] = 1",
+            work: "for (i <- 0 til qn) (qx append= i; pop qx)",
+            check: "[len(qx), sum(qx), len(qz), sum(qz)]", expect: |s| format!("[{},1,{},0]", s.n, s.n),
+            check_alias: la, expect_alias: |s| format!("[{},1]", s.n),
+            // the copy-on-write copy made by the setup is part of the model's history
+            nelem: n_of, k: |s| 2 * s.n, copied: |s| (s.n, 2 * s.n), in_model: true },
+        Family { name: "pp_slice", kind: Kind::List, setup: "qb := [0] ** (2 * qn); qx := qb[:qn]",
+            work: "for (i <- 0 til qn) (qx append= i; pop qx)",
+            check: ls, expect: |s| format!("[{},0]", s.n), check_alias: la, expect_alias: orig_list,
+            nelem: n_of, k: |s| 2 * s.n, copied: flat, in_model: false },
+        Family { name: "pp_grown", kind: Kind::List,
+            setup: "qx := []; for (i <- 0 til 3 * qn // 2) qx append= i; for (i <- 0 til qn // 2) pop qx",
+            work: "for (i <- 0 til qn) (qx append= i; pop qx)",
+            check: ls, expect: |s| format!("[{},{}]", s.n, tri(s.n)), check_alias: la, expect_alias: |s| format!("[{},{}]", s.n, tri(s.n)),
+            nelem: n_of, k: |s| 2 * s.n, copied: flat, in_model: true },
+        Family { name: "pp_half_push", kind: Kind::List, setup: PP_HALF, work: "for (i <- 0 til qn) (qx append= i; pop qx)",
+            check: ls, expect: |s| format!("[{},{}]", s.n, tri(s.n)), check_alias: la, expect_alias: |s| format!("[{},{}]", s.n, tri(s.n)),
+            nelem: n_of, k: |s| 2 * s.n, copied: flat, in_model: true },
+        Family { name: "pp_half_pop", kind: Kind::List, setup: PP_HALF, work: "for (i <- 0 til qn) (pop qx; qx append= i)",
+            check: "[len(qx), sum(qx[:-1])]", expect: |s| format!("[{},{}]", s.n, tri(s.n - 1)),
+            check_alias: la, expect_alias: |s| format!("[{},{}]", s.n, tri(s.n)),
+            nelem: n_of, k: |s| 2 * s.n, copied: flat, in_model: true },
+        Family { name: "pp_rows", kind: Kind::List, setup: "qx := [[], []]; for (i <- 0 til qn) qx[1] append= i",
+            work: "for (i <- 0 til qn) (qx[1] append= i; pop qx[1])",
+            check: "[len(qx[1]), sum(qx[1]), len(qx[0])]", expect: |s| format!("[{},{},0]", s.n, tri(s.n)),
+            check_alias: "[len(qy[1]), sum(qy[1])]", expect_alias: |s| format!("[{},{}]", s.n, tri(s.n)),
+            nelem: |s| s.n + 2, k: |s| 2 * s.n, copied: |s| (0, s.n + 2), in_model: true },
+        Family { name: "pp_struct", kind: Kind::List,
+            setup: "struct Foo(fa, fb); qx := Foo([], 7); for (i <- 0 til qn) qx[fa] append= i",
+            work: "for (i <- 0 til qn) (qx[fa] append= i; pop qx[fa])",
+            check: st, expect: |s| format!("[{},{},7]", s.n, tri(s.n)), check_alias: sta, expect_alias: |s| format!("[{},{},7]", s.n, tri(s.n)),
+            nelem: n_of, k: |s| 2 * s.n, copied: flat, in_model: false },
     ]
+}
+
+/// NOT judged: a closure whose body is the expression `a append b` keeps the parameter `a` alive while the builtin
+/// runs on a second reference, so every call copies the list (the same as `qy = qx append i`); measured and
+/// reported in rep.notes so that the difference to the in-place bodies of the uc_* families is on record
+fn informational_family() -> Family {
+    Family { name: "info_uc_push_expr", kind: Kind::List, setup: "push := \\a, b -> a append b; qx := [0] ** qn",
+        work: "for (i <- 0 til qn) qx push= i",
+        check: "[len(qx), sum(qx)]", expect: |s| format!("[{},{}]", 2 * s.n, tri(s.n)),
+        check_alias: "[len(qy), sum(qy)]", expect_alias: |s| format!("[{},0]", s.n),
+        nelem: n_of, k: n_of, copied: flat, in_model: false }
 }
 
 /// declared type of `qx` in the `@typed` variant of a family
 fn declared_type(name: &str) -> &'static str {
+    match name {
+        "uc_note" | "uc_note_new" | "uc_dict_list" | "uc_addkey" => return "dict",
+        "uc_struct_push" | "uc_struct_seti" | "pp_struct" => return "Foo",
+        "uc_vec" => return "vector",
+        "uc_bytes" => return "bytes",
+        _ => {}
+    }
     let p = name.split('_').next().unwrap_or("");
     match p {
-        "list" | "rows" | "wide" | "ld" => "list",
+        "list" | "rows" | "wide" | "ld" | "uc" | "pp" => "list",
         "dict" | "dk" | "dld" | "defdict" => "dict",
         "vec" => "vector",
         "bytes" => "bytes",
@@ -462,6 +614,48 @@ fn model_request(name: &str, s: &Sz, aliased: bool) -> Option<String> {
                 (holders, nn) = (s.r - 1, s.r);
             }
         }
+        "pp_pow2_built" | "pp_pow2_popfirst" | "pp_cow" | "pp_grown" | "pp_half_push" | "pp_half_pop" | "pp_rows" => {
+            let path = if name == "pp_rows" { "1" } else { "" };
+            match name {
+                "pp_cow" => {
+                    t.push(format!("as:3:ri0*{}", n));
+                    t.push("as:4:v3".into());
+                    t.push("as:0:v3".into());
+                    t.push("si:0:0:i1".into());
+                }
+                "pp_rows" => {
+                    for tok in ["as:0:l", "as:2:l", "ap:0::v2", "as:2:l", "ap:0::v2", "as:2:n"] {
+                        t.push(tok.into());
+                    }
+                    (0..n).for_each(|i| t.push(format!("ap:0:1:i{}", i)));
+                }
+                _ => {
+                    let (built, popped) = match name {
+                        "pp_grown" => (3 * n / 2, n / 2),
+                        "pp_half_push" | "pp_half_pop" => (2 * n, n),
+                        _ => (n, 0),
+                    };
+                    t.push("as:0:l".into());
+                    (0..built).for_each(|i| t.push(format!("ap:0::i{}", i)));
+                    (0..popped).for_each(|_| t.push("po:2:0:".into()));
+                }
+            }
+            if aliased {
+                t.push("as:1:v0".into());
+            }
+            let pop_first = name == "pp_pow2_popfirst" || name == "pp_half_pop";
+            for i in 0..n {
+                if pop_first {
+                    t.push(format!("po:2:0:{}", path));
+                    t.push(format!("ap:0:{}:i{}", path, i));
+                } else {
+                    t.push(format!("ap:0:{}:i{}", path, i));
+                    t.push(format!("po:2:0:{}", path));
+                }
+            }
+            let extra = if name == "pp_cow" { 1 } else { 0 }; // the setup's own copy-on-write copy
+            (holders, nn) = (aliased as u64 + extra, if name == "pp_rows" { n + 2 } else { n });
+        }
         "control" => {
             t.push(format!("as:0:ri0*{}", n));
             t.push("as:1:v0".into());
@@ -473,7 +667,7 @@ fn model_request(name: &str, s: &Sz, aliased: bool) -> Option<String> {
         }
         _ => return None,
     }
-    Some(format!("cost {} {} 3 {}", holders, nn, t.join(" ")))
+    Some(format!("cost {} {} 5 {}", holders, nn, t.join(" ")))
 }
 
 // ---------------------------------------------------------------------------------------------
@@ -484,6 +678,7 @@ struct Meas {
     calls: u64,
     largest: u64,
     big: u64,
+    reallocs: u64,
     /// None = ran and checked out; Some(why) = the workload is broken
     broken: Option<String>,
     result: String,
@@ -521,6 +716,7 @@ fn measure(prelude: &str, setup: &str, work: &str, big_thresh: u64, checks: &[(S
     CALLS.store(0, Relaxed);
     LARGEST.store(0, Relaxed);
     BIG_CALLS.store(0, Relaxed);
+    REALLOCS.store(0, Relaxed);
     BIG_THRESH.store(big_thresh.max(1), Relaxed);
     ON.store(true, Relaxed);
     let r = catch_unwind(AssertUnwindSafe(|| noulith::evaluate(&env, &expr)));
@@ -529,6 +725,7 @@ fn measure(prelude: &str, setup: &str, work: &str, big_thresh: u64, checks: &[(S
     m.calls = CALLS.load(Relaxed);
     m.largest = LARGEST.load(Relaxed);
     m.big = BIG_CALLS.load(Relaxed);
+    m.reallocs = REALLOCS.load(Relaxed);
     match r {
         Ok(Ok(_)) => m.result = "ok".into(),
         Ok(Err(e)) => {
@@ -647,8 +844,8 @@ fn replay(args: &Args, path: &str) {
                 bytes[i] = m.bytes;
                 xs[i] = 2 * s.n;
                 println!(
-                    "rust: n={} bytes={} alloc_calls={} largest_request={} requests>=4n_bytes={} bytes/(n+k)={:.1} workload={}{}",
-                    s.n, m.bytes, m.calls, m.largest, m.big, m.bytes as f64 / (2 * s.n) as f64, m.result,
+                    "rust: n={} bytes={} alloc_calls={} largest_request={} requests>=4n_bytes={} reallocs={} bytes/(n+k)={:.1} workload={}{}",
+                    s.n, m.bytes, m.calls, m.largest, m.big, m.reallocs, m.bytes as f64 / (2 * s.n) as f64, m.result,
                     m.broken.map(|b| format!(" BROKEN: {}", b)).unwrap_or_default()
                 );
             }
@@ -674,9 +871,9 @@ fn main() {
         return;
     }
     let mut rep = Report::new("C02", &args);
-    let (n0, n0_control) = match args.tier.as_str() {
-        "thorough" => (16_000u64, 4_000u64),
-        _ => (2_000u64, 2_000u64),
+    let (n0, n0_control, n0_pow2) = match args.tier.as_str() {
+        "thorough" => (16_000u64, 4_000u64, 16_384u64),
+        _ => (2_000u64, 2_000u64, 2_048u64),
     };
     rep.rule = format!(
         "every workload family (lists: x[i]=v, append=, ++=, x[i] f= v, pop, remove at end, consume round trip; \
@@ -684,7 +881,9 @@ fn main() {
          single-byte assignment; nested rows (square unshared, square shared payload, 4 wide rows): x[i][j]=v, x[i] append=; \
          struct fields: x[f][i]=v, x[f] append=; a collection held under a dict key, incl. int keys, two keys, \
          dict-of-list-of-dict, list-of-dict, struct-field-of-dict, default dicts: d[k] append=, ++=, |.=, d[k][i] f= v, \
-         d[k][i] = v) x (variable declared with `:=`, declared with a type annotation `qx: list = ..` = `@typed`) x \
+         d[k][i] = v; user-defined closures as the operator of an op-assign (x f= v, x .= f) mutating their \
+         parameter, on lists, rows, dicts, dict values, struct fields, vectors, bytes; append/pop pairs at a \
+         capacity boundary with n = 2^m exactly) x (variable declared with `:=`, declared with a type annotation `qx: list = ..` = `@typed`) x \
          (unaliased, once-aliased) x sizes n0={}, 2 n0, 4 n0 with k = n \
          statements, each in a fresh interpreter; bytes requested from the global allocator during evaluate() of the \
          workload only; a case is one (family, variant, size) measurement; plus the quadratic control (self-test)",
@@ -702,10 +901,18 @@ fn main() {
     let mut rows: Vec<Row> = vec![];
     let mut requests: Vec<String> = vec![];
     let mut replay_req: Vec<Option<String>> = vec![];
+    let mut req_index: std::collections::HashMap<String, usize> = Default::default();
+    let info_note: String;
     for (fi, f) in fams.iter().enumerate() {
         let variants: &[bool] = if fi == control_idx { &[true] } else { &[false, true] };
         for &aliased in variants {
-            let base = if fi == control_idx { n0_control } else { n0 };
+            let base = if fi == control_idx {
+                n0_control
+            } else if f.name.starts_with("pp_") {
+                n0_pow2
+            } else {
+                n0
+            };
             let szs = [Sz::new(base), Sz::new(2 * base), Sz::new(4 * base)];
             let setup = if aliased { format!("{}; qy := qx", f.setup) } else { f.setup.to_string() };
             let mut meas = vec![];
@@ -733,14 +940,18 @@ fn main() {
                     }
                 } else if f.in_model && s.n <= MODEL_MAX_N {
                     if let Some(r) = model_request(f.name, s, aliased) {
-                        reqs[si] = Some(requests.len());
-                        requests.push(r);
+                        // a @typed family has the same model history: the request is sent once
+                        let qi = *req_index.entry(r.clone()).or_insert_with(|| {
+                            requests.push(r);
+                            requests.len() - 1
+                        });
+                        reqs[si] = Some(qi);
                     }
                 }
             }
             // the request kept in the replay: the smallest size, if it is short enough
             let rr = if f.in_model {
-                model_request(f.name, &Sz::new(base.min(2000)), aliased).filter(|r| r.len() <= 100_000)
+                model_request(f.name, &Sz::new(base.min(if f.name.starts_with("pp_") { 1024 } else { 2000 })), aliased).filter(|r| r.len() <= 100_000)
             } else {
                 None
             };
@@ -749,14 +960,36 @@ fn main() {
         }
     }
 
+    // ---- 1b. information only (outside the quantifier, not judged)
+    {
+        let f = informational_family();
+        let mut b = [0u64; 3];
+        let mut xs = [0u64; 3];
+        let mut broken = None;
+        for (i, mult) in [1u64, 2, 4].iter().enumerate() {
+            let s = Sz::new(500 * mult);
+            let m = measure(&s.prelude(), f.setup, f.work, s.n * elem_size(f.kind) / 2, &[(f.check.to_string(), (f.expect)(&s))]);
+            b[i] = m.bytes;
+            xs[i] = 2 * s.n;
+            broken = broken.or(m.broken);
+        }
+        let (c, e1, e2) = classify_growth(&b, &xs);
+        info_note = format!(
+            "information only, NOT judged (closure body is the expression `a append b`, not an in-place statement: the \
+             parameter stays alive, one copy per call by construction): {} ;; {} ;; n=500,1000,2000 bytes=[{},{},{}] \
+             e=[{:.2},{:.2}] -> {}{}",
+            f.setup, f.work, b[0], b[1], b[2], e1, e2, c, broken.map(|w| format!(" BROKEN: {}", w)).unwrap_or_default()
+        );
+    }
+
     // ---- 2. the model's cost ledger
-    let resp = run_driver_parallel(&args.driver, &requests, 8);
+    let resp = run_driver_parallel(&args.driver, &requests, 12);
 
     // ---- 3. verdicts
     let obj = elem_size(Kind::List);
     rep.notes.push(format!(
-        "constants: ALPHA={} BETA={} GAMMA={} ELEM list={} dict={} vector={} bytes=1; sizes n0={} (control {}); model requests for n <= {} (control <= {}); \
-         columns: bytes at n0,2n0,4n0 | exponents | alloc calls | largest single request | requests >= half a payload copy | bytes/(n+k) | copied (model or closed form) | bound at n0",
+        "constants: ALPHA={} BETA={} (uc_* families: 3500) GAMMA={} ELEM list={} dict={} vector={} bytes=1; sizes n0={} (control {}, pp_* families 2^m: quick 2048, thorough 16384); model requests for n <= {} (control <= {}); \
+         columns: bytes at n0,2n0,4n0 | exponents | alloc calls | largest single request | requests >= half a payload copy | realloc calls | bytes/(n+k) | copied (model or closed form) | bound at n0",
         ALPHA, BETA, GAMMA, obj, elem_size(Kind::Dict), elem_size(Kind::Vector), n0, n0_control, MODEL_MAX_N, MODEL_MAX_N_CONTROL
     ));
     let mut unaliased_bytes: std::collections::HashMap<usize, [u64; 3]> = Default::default();
@@ -831,7 +1064,8 @@ fn main() {
             measured_only.push(format!("{}:{}", f.name, variant));
         }
         let elem = elem_size(f.kind);
-        let bounds: Vec<u64> = (0..3).map(|i| ALPHA + BETA * xs[i] + GAMMA * copied[i] * elem).collect();
+        let beta = beta_for(f.name);
+        let bounds: Vec<u64> = (0..3).map(|i| ALPHA + beta * xs[i] + GAMMA * copied[i] * elem).collect();
         let (growth, e1, e2) = classify_growth(&bytes, &xs);
         let over = (0..3).find(|&i| bytes[i] > bounds[i]);
         let rust = if growth != "linear" {
@@ -847,11 +1081,12 @@ fn main() {
             None => format!("~{}", copied[i]),
         };
         rep.notes.push(format!(
-            "{:<16} {:<9} bytes=[{},{},{}] e=[{:.2},{:.2}] calls=[{},{},{}] largest=[{},{},{}] big=[{},{},{}] per(n+k)=[{:.1},{:.1},{:.1}] copied=[{},{},{}] bound(n0)={} over-bound={} -> {}",
+            "{:<16} {:<9} bytes=[{},{},{}] e=[{:.2},{:.2}] calls=[{},{},{}] largest=[{},{},{}] big=[{},{},{}] reallocs=[{},{},{}] per(n+k)=[{:.1},{:.1},{:.1}] copied=[{},{},{}] bound(n0)={} over-bound={} -> {}",
             f.name, variant, bytes[0], bytes[1], bytes[2], e1, e2,
             row.meas[0].calls, row.meas[1].calls, row.meas[2].calls,
             row.meas[0].largest, row.meas[1].largest, row.meas[2].largest,
             row.meas[0].big, row.meas[1].big, row.meas[2].big,
+            row.meas[0].reallocs, row.meas[1].reallocs, row.meas[2].reallocs,
             bytes[0] as f64 / xs[0] as f64, bytes[1] as f64 / xs[1] as f64, bytes[2] as f64 / xs[2] as f64,
             mc(0), mc(1), mc(2), bounds[0],
             over.map(|i| format!("yes(x{:.1} at n={})", bytes[i] as f64 / bounds[i] as f64, row.szs[i].n)).unwrap_or("no".into()),
@@ -902,6 +1137,7 @@ fn main() {
         "measured-only (outside the model's statement vocabulary; closed-form prediction 0 / n copied): {}",
         measured_only.join(" ")
     ));
+    rep.notes.push(info_note);
     rep.notes.push(format!("model requests: {} (all sizes <= {})", requests.len(), MODEL_MAX_N));
     rep.write(&args.out);
 }
